@@ -246,7 +246,7 @@ use octseq::builder::OctetsBuilder;
 
 pub const MK_ROUTES: &[&str] = &["new", "tuple_u32", "tuple_ttl", "in_default", "header", "parse"];
 pub const MKD_ROUTES: &[&str] = &["wire", "typed", "builder"];
-pub const WR_ROUTES: &[&str] = &["zone", "all", "ref", "parsed"];
+pub const WR_ROUTES: &[&str] = &["zone", "all", "ref", "parsed", "own"];
 pub const CTOR_ROUTES: &[&str] = &["from_slice", "from_str", "load", "bufmut", "extend", "default_reserve"];
 
 fn charstrs_of(mut rdata: &[u8]) -> Option<Vec<Vec<u8>>> {
@@ -275,7 +275,21 @@ fn data_via(mkd: &str, rtype: u16, rdata: &[u8]) -> Option<Result<FlatData, Stri
     let name_at = |at: usize| Name::<Bytes>::from_octets(Bytes::copy_from_slice(&rdata[at..])).map_err(|e| format!("name: {}", e));
     let e = |s: String| Some(Err(s));
     match (mkd, rtype) {
-        ("typed", 16) => Some(Txt::<Bytes>::from_octets(Bytes::copy_from_slice(rdata)).map(FlatData::from).map_err(|x| x.to_string())),
+        ("typed", 16) => {
+            let t = match Txt::<Bytes>::from_octets(Bytes::copy_from_slice(rdata)) { Ok(t) => t, Err(x) => return e(x.to_string()) };
+            // the same data as a slice, through iteration, and through ParseRecordData
+            match Txt::from_slice(rdata) {
+                Ok(s) if s.iter().collect::<Vec<_>>() == (&t).into_iter().collect::<Vec<_>>() => {}
+                _ => return e("Txt::from_slice differs".into()),
+            }
+            let b = Bytes::copy_from_slice(rdata);
+            let mut p = Parser::from_ref(&b);
+            match Txt::<Bytes>::parse_rdata(Rtype::TXT, &mut p) {
+                Ok(Some(x)) if x == t => {}
+                _ => return e("Txt::parse_rdata differs".into()),
+            }
+            Some(Ok(FlatData::from(t)))
+        }
         ("builder", 16) => {
             let strs = charstrs_of(rdata)?;
             if strs.len() == 1 && !strs[0].is_empty() {
@@ -300,7 +314,7 @@ fn data_via(mkd: &str, rtype: u16, rdata: &[u8]) -> Option<Result<FlatData, Stri
             let (cpu, os) = if mkd == "typed" {
                 (CharStr::from_octets(Bytes::copy_from_slice(&strs[0])).ok()?, CharStr::from_octets(Bytes::copy_from_slice(&strs[1])).ok()?)
             } else {
-                let mut a = CharStrBuilder::new_bytes();
+                let mut a = if strs[0].is_empty() { CharStr::<Bytes>::empty().into_builder() } else { CharStrBuilder::new_bytes() };
                 for chunk in strs[0].chunks(3) { if a.append_slice(chunk).is_err() { return e("charstr builder".into()); } }
                 if a.len() != strs[0].len() || a.is_empty() != strs[0].is_empty() { return e("charstr builder len".into()); }
                 let b = match CharStrBuilder::from_builder(BytesMut::from(&strs[1][..])) { Ok(b) => b, Err(x) => return e(x.to_string()) };
@@ -360,7 +374,7 @@ fn svcb_via(mkd: &str, rtype: u16, rdata: &[u8]) -> Result<FlatData, String> {
         let keys16 = || -> Vec<SvcParamKey> { v.chunks(2).map(|c| SvcParamKey::from_int(u16::from_be_bytes([c[0], c[1]]))).collect() };
         let typed = mkd == "typed";
         match key {
-            0 if typed => b.push(&Mandatory::from_keys::<Vec<u8>>(keys16().into_iter()).map_err(|e| es(&e))?).map_err(|e| es(&e))?,
+            0 if typed => b.push(&Mandatory::<Vec<u8>>::from_keys(keys16().into_iter()).map_err(|e| es(&e))?).map_err(|e| es(&e))?,
             0 => b.mandatory(keys16()).map_err(|e| es(&e))?,
             1 if typed => b.push(Alpn::from_slice(v).map_err(|e| es(&e))?).map_err(|e| es(&e))?,
             1 => { let mut ids: Vec<&[u8]> = vec![]; let mut q = v; while !q.is_empty() { let k = q[0] as usize; ids.push(&q[1..=k]); q = &q[k + 1..]; }
@@ -369,23 +383,24 @@ fn svcb_via(mkd: &str, rtype: u16, rdata: &[u8]) -> Result<FlatData, String> {
             2 => b.no_default_alpn().map_err(|e| es(&e))?,
             3 if typed => b.push(&Port::new(u16::from_be_bytes([v[0], v[1]]))).map_err(|e| es(&e))?,
             3 => b.port(u16::from_be_bytes([v[0], v[1]])).map_err(|e| es(&e))?,
-            4 if typed => b.push(&Ipv4Hint::from_addrs::<Vec<u8>>(v.chunks(4).map(|c| Ipv4Addr::new(c[0], c[1], c[2], c[3]))).map_err(|e| es(&e))?).map_err(|e| es(&e))?,
+            4 if typed => b.push(&Ipv4Hint::<Vec<u8>>::from_addrs(v.chunks(4).map(|c| Ipv4Addr::new(c[0], c[1], c[2], c[3]))).map_err(|e| es(&e))?).map_err(|e| es(&e))?,
             4 => b.ipv4hint(v.chunks(4).map(|c| Ipv4Addr::new(c[0], c[1], c[2], c[3])).collect::<Vec<_>>()).map_err(|e| es(&e))?,
             5 if typed => b.push(Ech::from_slice(v).map_err(|e| es(&e))?).map_err(|e| es(&e))?,
             5 => b.ech(v).map_err(|e| es(&e))?,
-            6 if typed => b.push(&Ipv6Hint::from_addrs::<Vec<u8>>(v.chunks(16).map(|c| { let mut a = [0u8; 16]; a.copy_from_slice(c); Ipv6Addr::from(a) })).map_err(|e| es(&e))?).map_err(|e| es(&e))?,
+            6 if typed => b.push(&Ipv6Hint::<Vec<u8>>::from_addrs(v.chunks(16).map(|c| { let mut a = [0u8; 16]; a.copy_from_slice(c); Ipv6Addr::from(a) })).map_err(|e| es(&e))?).map_err(|e| es(&e))?,
             6 => b.ipv6hint(v.chunks(16).map(|c| { let mut a = [0u8; 16]; a.copy_from_slice(c); Ipv6Addr::from(a) }).collect::<Vec<_>>()).map_err(|e| es(&e))?,
             7 if typed => b.push(DohPath::from_slice(v).map_err(|e| es(&e))?).map_err(|e| es(&e))?,
             7 => b.dohpath(std::str::from_utf8(v).map_err(|e| es(&e))?).map_err(|e| es(&e))?,
             8 if typed => b.push(&Ohttp).map_err(|e| es(&e))?,
             8 => b.ohttp().map_err(|e| es(&e))?,
-            9 if typed => b.push(&TlsSupportedGroups::from_keys::<Vec<u8>>(keys16().into_iter()).map_err(|e| es(&e))?).map_err(|e| es(&e))?,
+            9 if typed => b.push(&TlsSupportedGroups::<Vec<u8>>::from_keys(keys16().into_iter().map(|k| k.to_int())).map_err(|e| es(&e))?).map_err(|e| es(&e))?,
             9 => b.tls_supported_groups(keys16()).map_err(|e| es(&e))?,
             k => b.push(&UnknownSvcParam::new(SvcParamKey::from_int(k), v).map_err(|e| es(&e))?).map_err(|e| es(&e))?,
         }
     }
     let params: SvcParams<Bytes> = b.freeze::<Bytes>().map_err(|_| "freeze".to_string())?;
     if params.as_slice() != wire { return Err("SvcParamsBuilder assembled different parameters".into()); }
+    match SvcParams::from_slice(wire) { Ok(sl) if sl.as_slice() == wire && sl.len() == params.len() => {}, _ => return Err("SvcParams::from_slice".into()) }
     // the typed getters find what was put in
     let get = |k: u16| -> Option<&[u8]> { let mut p = wire; while p.len() >= 4 { let n = u16::from_be_bytes([p[2], p[3]]) as usize;
         if u16::from_be_bytes([p[0], p[1]]) == k { return Some(&p[4..4 + n]); } p = &p[4 + n..]; } None };
@@ -430,11 +445,15 @@ pub fn record_via(mk: &str, mkd: &str, owner: &[u8], class: u16, ttl: u32, rtype
         "header" => RecordHeader::new(o, Rtype::from_int(rtype), c, Ttl::from_secs(ttl), rdata.len() as u16).into_record(data),
         "parse" => {
             // the whole record from its wire form
-            let mut w = owner.to_vec();
-            w.extend_from_slice(&rtype.to_be_bytes());
-            w.extend_from_slice(&class.to_be_bytes());
-            w.extend_from_slice(&ttl.to_be_bytes());
-            w.extend_from_slice(&(rdata.len() as u16).to_be_bytes());
+            let mut w: Vec<u8> = Vec::new();
+            RecordHeader::new(o.clone(), Rtype::from_int(rtype), c, Ttl::from_secs(ttl), rdata.len() as u16)
+                .compose(&mut w).map_err(|_| "RecordHeader::compose".to_string())?;
+            let mut manual = owner.to_vec();
+            manual.extend_from_slice(&rtype.to_be_bytes());
+            manual.extend_from_slice(&class.to_be_bytes());
+            manual.extend_from_slice(&ttl.to_be_bytes());
+            manual.extend_from_slice(&(rdata.len() as u16).to_be_bytes());
+            if w != manual { return Err("RecordHeader::compose differs from the wire form".into()); }
             w.extend_from_slice(rdata);
             let b = Bytes::from(w);
             let mut p = Parser::from_ref(&b);
@@ -450,6 +469,12 @@ pub fn record_via(mk: &str, mkd: &str, owner: &[u8], class: u16, ttl: u32, rtype
         }
         _ => Record::new(o, c, Ttl::from_secs(ttl), data),
     };
+    // the routes are aliases: the same record whichever way it was built
+    if !rec.owner().name_eq(base.owner()) || rec.class() != base.class() || rec.ttl() != base.ttl()
+        || rec.rtype() != base.rtype() || rec.data() != base.data()
+    {
+        return Err(format!("record route {} builds a different record", mk));
+    }
     Ok(rec)
 }
 
@@ -503,10 +528,37 @@ pub fn write_record_via(wr: &str, r: &FlatRecord, kind: &str) -> String {
                 _ => "<Record::parse failed>".to_string(),
             }
         }
+        "own" => {
+            // a FormatWriter of the user's own: the tokens, one space between them
+            let mut c = TokenCollector::default();
+            match r.fmt(&mut c) { Ok(()) => c.toks.join(" "), Err(_) => "<ZonefileFmt::fmt failed>".to_string() }
+        }
         _ => fmt_kind(r, kind),
     };
     s.push('\n');
     s
+}
+
+/// The library's record-data tokens (TokenCollector), cut into words at
+/// unescaped spaces outside quotes, quotes taken off.
+pub fn rdata_words(r: &FlatRecord) -> Vec<String> {
+    let mut c = TokenCollector::default();
+    let _ = r.data().fmt(&mut c);
+    let mut out = vec![];
+    for t in c.toks {
+        let (mut cur, mut quoted, mut any, mut esc) = (String::new(), false, false, false);
+        for ch in t.chars() {
+            if esc { cur.push(ch); esc = false; continue; }
+            match ch {
+                '\\' => { cur.push(ch); esc = true; any = true; }
+                '"' => { quoted = !quoted; any = true; }
+                ' ' if !quoted => { if any { out.push(std::mem::take(&mut cur)); any = false; } }
+                _ => { cur.push(ch); any = true; }
+            }
+        }
+        if any { out.push(cur); }
+    }
+    out
 }
 
 /// A zone: all records through ONE FormatWriter, FormatWriter::newline
@@ -570,8 +622,7 @@ pub fn zonefile_via(ctor: &str, text: &[u8], o: &ReadOpts) -> Result<Zonefile, S
     Ok(zone)
 }
 
-/// Read to exhaustion like `read_all`, reader set up by `ctor`; `off` is
-/// Zonefile::current_offset() after the last call.
+/// Read to exhaustion like `read_all`, reader set up by `ctor`.
 pub fn read_all_via(ctor: &str, text: &[u8], o: &ReadOpts) -> Value {
     let mut zone = match zonefile_via(ctor, text, o) { Ok(z) => z, Err(e) => return json!({"ctor_failed": e}) };
     let mut entries = vec![];
